@@ -7,6 +7,7 @@ import (
 	"os/signal"
 	"strconv"
 	"strings"
+	"syscall"
 	"testing"
 	"time"
 )
@@ -16,6 +17,7 @@ func TestMain(m *testing.M) {
 	c := make(chan os.Signal, 1)
 	signal.Notify(c, os.Interrupt)
 	signal.Stop(c)
+	signal.Ignore(syscall.SIGXFSZ) // file-size-limit faults (kit_fsize.go) must surface as EFBIG, not kill the worker
 	if d := os.Getenv("VERIF_TMP"); d != "" {
 		os.Setenv("TMPDIR", d)
 	}
